@@ -21,7 +21,7 @@ from common import Rng
 from jaxtyping._import_hook import JaxtypingTransformer, Typechecker
 
 LEVEL = "proof"
-THEOREMS = ["C10_erase", "C10_count", "C10_import_count", "C10_import_position", "C10_positions", "C10_generated_good", "C10_source_visitors"]
+THEOREMS = ["C10_erase", "C10_count", "C10_import_count", "C10_import_position", "C10_positions", "C10_generated_good", "C10_source_visitors", "C10_source_to_code"]
 RULE = (
     "programs = every .py file of the standard library and of site-packages whose original source "
     "compiles (quick: a seeded sample of 300; thorough: all) plus generated modules (decorator stacks, "
@@ -36,6 +36,7 @@ TRUSTED = [
     "the abstraction of a Python AST to the generic located tree (harness/c10.py: skeleton)",
     "hypothesis of the behavioural clause: the module does not rebind the identifier `jaxtyping`",
     "harness/translate_hook.py (recognisers of the statements of the three visitor methods) and the interpreter Model/HookDsl.lean (generic_visit = transformList)",
+    "harness/translate_loader.py (recognisers of the statements of _JaxtypingLoader.source_to_code) and the interpreter Model/LoaderDsl.lean",
 ]
 
 TC = Typechecker(None)
@@ -553,10 +554,48 @@ def execute(code, path):
 FIXED_MODULES = [KITCHEN_SINK, ANNOTATED_MODULE, TYPE_CHECKING_MODULE, OWN_IMPORT_MODULE, TYPE_COMMENT_MODULE, TAB_MODULE, NAMED_DECORATOR_MODULE]
 
 
+ENCODED_BODY = 'LOG = []\ndef shout(x):\n    """caf\u00e9 \u2013 na\u00efve"""\n    return x + "\u00e9\u00df"\nclass K:\n    def m(self):\n        return "\u00fc"\ndef main():\n    return (shout("a"), K().m(), shout.__doc__), LOG\n'
+
+
+def encoded_module_cases(out):
+    """the loader is handed BYTES: modules with a PEP 263 coding cookie, a UTF-8 byte-order mark, a cookie on the second
+    line, and plain UTF-8, as the interpreter itself would read them — the hooked module is the plain one"""
+    latin = ENCODED_BODY.replace("\u2013", "-")
+    cases = [
+        ("utf8", ENCODED_BODY.encode("utf-8")),
+        ("utf8-bom", b"\xef\xbb\xbf" + ENCODED_BODY.encode("utf-8")),
+        ("latin1-cookie", b"# -*- coding: latin-1 -*-\n" + latin.encode("latin-1")),
+        ("cookie-second-line", b"#!/usr/bin/env python\n# vim: set fileencoding=iso-8859-15 :\n" + latin.encode("iso-8859-15")),
+        ("cp1252-cookie-utf8-bytes", b"# coding: cp1252\n" + latin.encode("utf-8")),
+        ("utf8-cookie-bom", b"\xef\xbb\xbf# coding: utf-8\n" + ENCODED_BODY.encode("utf-8")),
+    ]
+    from jaxtyping._import_hook import _JaxtypingLoader
+
+    for name, data in cases:
+        path = f"<encoded {name}>"
+        out.count("encoded_modules")
+        try:
+            plain = execute(compile(data, path, "exec", dont_inherit=True), path)
+        except Exception as e:  # noqa: BLE001
+            out.count("encoded_plain_failed")
+            continue
+        out.case(("encoded", name), nontrivial=name != "utf8")
+        try:
+            hooked = execute(_JaxtypingLoader("genmod", path, typechecker=TC).source_to_code(data, path), path)
+        except BaseException as e:  # noqa: BLE001
+            out.violation(f"loader:encoded:{type(e).__name__}", f"a module stored as {name} imports plainly, but through the hook's loader it fails: {e!r}",
+                          {"encoded": name, "data_hex": data.hex()})
+            continue
+        if hooked != plain:
+            out.violation("loader:encoded:behaviour", f"a module stored as {name} behaves differently through the hook's loader: {str(plain)[:200]} vs {str(hooked)[:200]}",
+                          {"encoded": name, "data_hex": data.hex()})
+
+
 def run(tier, seed, out, drv, facts):
     import warnings
 
     warnings.filterwarnings("ignore", category=SyntaxWarning)     # corpus files with invalid escapes etc.: not our concern
+    encoded_module_cases(out)
     rng = Rng(seed, "C10")
     thorough = tier == "thorough"
     sys.setrecursionlimit(max(sys.getrecursionlimit(), 5000))
